@@ -27,12 +27,62 @@ import (
 
 // Op is one REPL-level operation.
 type Op struct {
-	Kind string   `json:"k"`           // add | clear | limit | sadd | sclear | setq
+	Kind string   `json:"k"`           // add | readd | clear | limit | sadd | sclear | setq
+	// readd: what the editor does when an entry is recalled, edited and entered:
+	// the A-th most recent entry is detached with Form.Dup, one rune of the
+	// copy (selected by B and P) is replaced in place by Ch, the copy is added.
 	Form []string `json:"f,omitempty"` // lines of the entered form
 	A    int      `json:"a,omitempty"`
 	B    int      `json:"b,omitempty"`
+	P    int      `json:"p,omitempty"`
+	Ch   string   `json:"ch,omitempty"`
 	Var  string   `json:"var,omitempty"`
 	Val  string   `json:"val,omitempty"`
+}
+
+// editRunes replaces, in place, one non-blank rune of the form selected by
+// (b, p) with ch. Implementation side and model side use the same function
+// (the model on its own copy of the text).
+func editRunes(f [][]rune, b, p int, ch rune) {
+	type at struct{ l, i int }
+	var spots []at
+	for l, line := range f {
+		for i, r := range line {
+			if r != ' ' && r != '\t' {
+				spots = append(spots, at{l, i})
+			}
+		}
+	}
+	if len(spots) == 0 {
+		return
+	}
+	sp := spots[(b*31+p)%len(spots)]
+	f[sp.l][sp.i] = ch
+}
+
+func editLines(lines []string, b, p int, ch rune) []string {
+	f := make([][]rune, len(lines))
+	for i, l := range lines {
+		f[i] = []rune(l)
+	}
+	editRunes(f, b, p, ch)
+	out := make([]string, len(f))
+	for i, l := range f {
+		out[i] = string(l)
+	}
+	return out
+}
+
+// resolve turns a readd into the add it amounts to, given the entry the
+// implementation handed out.
+func resolve(op Op, oo opOut) Op {
+	if op.Kind != "readd" {
+		return op
+	}
+	if oo.Recalled == nil {
+		return Op{Kind: "nop"}
+	}
+	return Op{Kind: "add", Form: editLines(oo.Recalled, op.B, op.P, []rune(op.Ch)[0])}
 }
 
 // Case is a sequence of sessions; the process is restarted between sessions.
@@ -68,6 +118,8 @@ type opOut struct {
 	SSize   int    `json:"ssize"`  // stash size before the op
 	Err     string `json:"err,omitempty"`
 	PointsN []string
+	// Recalled: the entry a readd was handed (before the edit)
+	Recalled []string `json:"recalled,omitempty"`
 }
 
 type sessOut struct {
@@ -158,6 +210,13 @@ func sessMain(args []string) int {
 			switch op.Kind {
 			case "add":
 				h.Add(formOf(op.Form))
+			case "readd":
+				if 0 < h.Size() {
+					work := h.Nth(op.A % h.Size()).Dup()
+					oo.Recalled = linesOf(work)
+					editRunes(work, op.B, op.P, []rune(op.Ch)[0])
+					h.Add(work)
+				}
 			case "clear":
 				h.Clear(op.A, op.B)
 			case "limit":
@@ -228,7 +287,6 @@ func genForm(r *rand.Rand, odd bool) []string {
 }
 
 func genOps(r *rand.Rand, n int, limit int, oddPct int, withClear bool) []Op {
-	partial := 0 < oddPct
 	var ops []Op
 	var last []string
 	for len(ops) < n {
@@ -240,12 +298,21 @@ func genOps(r *rand.Rand, n int, limit int, oddPct int, withClear bool) []Op {
 				f = last // consecutive duplicate
 			}
 			last = f
+			if r.IntN(5) == 0 {
+				// recall an entry, edit one rune in place, enter it
+				ops = append(ops, Op{Kind: "readd", A: []int{0, 0, 1, 2, 3, 5, 8}[r.IntN(7)], B: r.IntN(1000), P: r.IntN(1000), Ch: string("0123456789abcdefXYZ"[r.IntN(19)])})
+				last = nil
+				continue
+			}
 			ops = append(ops, Op{Kind: "add", Form: f})
 		case k < 70 && withClear:
-			a, b := 0, -1 // the clean stream clears everything; partial ranges are a listed finding
-			if partial && r.IntN(2) == 0 {
-				a = r.IntN(3)
-				b = a + r.IntN(3)
+			a, b := 0, -1
+			if r.IntN(2) == 0 { // a range counted from the most recent entry
+				a = r.IntN(4)
+				b = a + r.IntN(4)
+				if r.IntN(4) == 0 {
+					b = -1
+				}
 			}
 			ops = append(ops, Op{Kind: "clear", A: a, B: b})
 		case k < 75:
@@ -257,7 +324,12 @@ func genOps(r *rand.Rand, n int, limit int, oddPct int, withClear bool) []Op {
 		case k < 88:
 			ops = append(ops, Op{Kind: "sadd", Form: genForm(r, false)})
 		case k < 91 && withClear:
-			ops = append(ops, Op{Kind: "sclear", A: 0, B: -1})
+			a, b := 0, -1
+			if r.IntN(2) == 0 {
+				a = r.IntN(3)
+				b = a + r.IntN(3)
+			}
+			ops = append(ops, Op{Kind: "sclear", A: a, B: b})
 		default:
 			v := fw.Pick(r, settingVars)
 			val := fmt.Sprint(2 + r.IntN(35))
@@ -307,7 +379,7 @@ func gen(r *rand.Rand, i int, tier string) Case {
 	if crash {
 		c.Follow = genOps(r, 5+c.Limit, c.Limit, 0, false)
 		for k := range c.Follow { // follow-up is adds only, enough to force a compaction
-			if c.Follow[k].Kind != "add" {
+			if c.Follow[k].Kind != "add" && c.Follow[k].Kind != "readd" {
 				c.Follow[k] = Op{Kind: "add", Form: genForm(r, false)}
 			}
 		}
@@ -373,9 +445,6 @@ func (m *model) apply(op Op, size, ssize int) {
 	case "limit":
 		m.limit = op.A
 	case "clear":
-		if !(op.A <= 0 && (op.B < 0 || size-1 <= op.B)) && 0 < size {
-			m.taint = "after-partial-clear"
-		}
 		n := len(m.live)
 		m.live = clearRange(m.live, size, op.A, op.B)
 		r := n - len(m.live)
@@ -390,9 +459,6 @@ func (m *model) apply(op Op, size, ssize int) {
 		}
 		m.stash = append(m.stash, op.Form)
 	case "sclear":
-		if !(op.A <= 0 && (op.B < 0 || ssize-1 <= op.B)) && 0 < ssize {
-			m.taint = "after-partial-clear"
-		}
 		m.stash = clearRange(m.stash, ssize, op.A, op.B)
 	case "setq":
 		m.vars[op.Var] = op.Val
@@ -689,7 +755,16 @@ func execCase(x *fw.Ctx, c Case) {
 				x.Fail("op-error kind="+op.Kind, "session %d op %d %v failed: %s", si, oi, op, so.Ops[oi].Err)
 				return
 			}
-			m.apply(op, so.Ops[oi].Size, so.Ops[oi].SSize)
+			if op.Kind == "readd" && 0 < so.Ops[oi].Size {
+				// what recall hands out must be the entry that was entered
+				k := op.A % so.Ops[oi].Size
+				if k < len(m.live) && m.taint == "" && !eqForm(so.Ops[oi].Recalled, m.live[len(m.live)-1-k]) {
+					x.Fail("restart what=recall fail=differs", "session %d op %d: the %d-th most recent entry was handed out as %q, entered was %q", si, oi, k, so.Ops[oi].Recalled, m.live[len(m.live)-1-k])
+					return
+				}
+				x.Cover("recalled-entries-compared")
+			}
+			m.apply(resolve(op, so.Ops[oi]), so.Ops[oi].Size, so.Ops[oi].SSize)
 			x.Cover("op:" + op.Kind)
 		}
 		if k := hasOdd(m.live); k != "" {
@@ -708,10 +783,10 @@ func execCase(x *fw.Ctx, c Case) {
 			// model states just before and just after the op the crash fell into
 			before := cloneModel(preModel)
 			for k := 0; k < opi; k++ {
-				before.apply(ops[k], so.Ops[k].Size, so.Ops[k].SSize)
+				before.apply(resolve(ops[k], so.Ops[k]), so.Ops[k].Size, so.Ops[k].SSize)
 			}
 			after := cloneModel(before)
-			after.apply(ops[opi], so.Ops[opi].Size, so.Ops[opi].SSize)
+			after.apply(resolve(ops[opi], so.Ops[opi]), so.Ops[opi].Size, so.Ops[opi].SSize)
 			// recovery: a fresh process loads the directory
 			rso, _ := rn.session(cdir, after.limit, nil, 0)
 			sigp := fmt.Sprintf("crash op=%s point=%s", ops[opi].Kind, name)
@@ -774,7 +849,7 @@ func execCase(x *fw.Ctx, c Case) {
 						}
 					}
 					for k, op := range fops {
-						rec.apply(op, fso.Ops[k].Size, fso.Ops[k].SSize)
+						rec.apply(resolve(op, fso.Ops[k]), fso.Ops[k].Size, fso.Ops[k].SSize)
 					}
 				}
 				if !x.Failed() {
